@@ -21,7 +21,8 @@ func init() {
 		Title: "Stores never lose an update; watchers never miss the latest state",
 		Explanation: "Linearizability and eventual delivery need the semantics of the Atomix primitives and are declined. Decided for the five stores (v2 transaction/proposal/configuration, v3 transaction/configuration): (1) every update/remove of a primitive entry is conditional on the version read — IfVersion(primitive.Version(x.Version)) of the record being written, or IfVersion(entry.Version) of the entry just read under the same key; entries are created with Insert/Append only; " +
 			"(2) Version, log Index and Revision of the records are assigned only in their store package and only from the primitive's entry (Revision: = 1 on create, ++ on update); (3) in every Watch the listener is registered (watcher map insert under the lock, or the primitive's Events stream opened) before any snapshot read that feeds the replay; " +
-			"(4) no path of a watch goroutine closes the subscriber's channel twice (deferred closes included) or sends on it after closing it; (5) behind a shared dispatcher every send on the subscriber's channel is a select case next to ctx.Done(), so that a departed subscriber cannot block the dispatcher and with it every other watcher; (6) every lock is released on all paths and nothing is sent on a channel while the store mutex is held.",
+			"(4) no path of a watch goroutine closes the subscriber's channel twice (deferred closes included) or sends on it after closing it; (5) behind a shared dispatcher every send on the subscriber's channel is a select case next to ctx.Done(), so that a departed subscriber cannot block the dispatcher and with it every other watcher; (6) every lock is released on all paths and nothing is sent on a channel while the store mutex is held." +
+			" Also: nested end of stream does not return (C15.17); close on every exit of a watch goroutine that closes on some (C15.18).",
 		Declined: []string{"linearizability of the primitives", "that every event is eventually shown (needs Atomix semantics)"},
 		Run:      runC15,
 		Witness:  []WitnessTarget{{pkgStoreTxV2, nil}, {pkgStorePropV2, nil}, {pkgStoreCfgV2, nil}, {pkgStoreTxV3, nil}, {pkgStoreCfgV3, nil}},
